@@ -2,7 +2,7 @@
 import tftp_common as T
 from core import Judgement
 from props import tftp_base as B
-from props.tftp_base import env_of, worker_setup, run_impl, model_requests, shrink, neighbours  # noqa
+from props.tftp_base import env_of, worker_setup, run_impl, shrink, neighbours  # noqa
 
 ID = "C10"
 MODULE = "props.c10"
@@ -11,6 +11,7 @@ THEOREMS = [
     "Vinegar.C10.dispatch_first",
     "Vinegar.C10.dispatch_calls",
     "Vinegar.C10.none_not_found",
+    "Vinegar.C10.some_transfer",
     "Vinegar.C10.serverAddr_spec",
 ]
 TRUSTED_BASE = T.TRUSTED_BASE
@@ -34,8 +35,17 @@ def expected_server_addr(case):
     return list(sn)
 
 
+def model_requests(case, obs):
+    reqs = B.model_requests(case, obs)
+    r = {"op": "tftp.serveraddr", "sockname": case.get("sockname", ["::", 69, 0, 0])}
+    if case.get("pktinfo", True) and case.get("dst"):
+        r["dst"] = case["dst"]
+    return reqs + [r]
+
+
 def judge(case, obs, resps):
-    j = _base(case, obs, resps)
+    j = _base(case, obs, resps[:1])
+    model_addr = resps[1].get("ok") if len(resps) > 1 else None
     if j.kind == "infra" or not j.agree:
         return j
     calls = obs.get("calls", [])
@@ -56,6 +66,9 @@ def judge(case, obs, resps):
                 if c[3] != list(sim_net.CLIENT_ADDR):
                     return Judgement(case, False, j.agree, {"call": c}, j.kind, True, "client_address")
                 exp = expected_server_addr(case)
+                if model_addr != exp:
+                    return Judgement(case, True, False, {"model_server_address": model_addr, "statement": exp},
+                                     j.kind, True, None)
                 if c[4] != exp:
                     return Judgement(case, False, j.agree, {"call": c, "expected_server_address": exp}, j.kind, True,
                                      "server_address")
